@@ -289,3 +289,21 @@ Definition last_is_digit (s : str) : bool :=
   end.
 Definition kw_facts (kw : list str) : bool :=
   forallb (fun k => negb (last_is_digit k) && negb (forallb is_upper k)) kw.
+
+(* ---- what the theorems assume about the library (all on ASCII only, except idempotence of upper);
+   each is monitored on the running Python by harness/props/c21.py ------------------------------------ *)
+(* c.upper() for an ASCII character c is its ASCII upper-case form *)
+Definition upper_ok (upper_char : Z -> str) : Prop :=
+  forall c, is_ascii c = true -> upper_char c = [ascii_upper c].
+(* c.capitalize() likewise *)
+Definition cap_ok (cap_char : Z -> str) : Prop :=
+  forall c, is_ascii c = true -> cap_char c = [ascii_upper c].
+(* NFKD leaves ASCII text unchanged *)
+Definition nfkd_ok (nfkd : str -> str) : Prop :=
+  forall s, forallb is_ascii s = true -> nfkd s = s.
+(* no ASCII character is a combining mark *)
+Definition combining_ok (combining : Z -> bool) : Prop :=
+  forall c, is_ascii c = true -> combining c = false.
+(* c.upper().upper() == c.upper() for every character *)
+Definition upper_idem_ok (upper_char : Z -> str) : Prop :=
+  forall c, upper upper_char (upper_char c) = upper_char c.
